@@ -12,6 +12,7 @@
 #include "clstepcore/STEPaggrString.h"
 #include "clstepcore/STEPaggrInt.h"
 #include "clstepcore/STEPaggrReal.h"
+#include "clstepcore/STEPaggrEnum.h"
 #include "clstepcore/read_func.h"
 #include <stdio.h>
 #include <stdlib.h>
@@ -40,6 +41,10 @@ static int verif_snprintf_ld(char *s, size_t cap, const char *fmt, long v)
 static int g_wr_calls; static double g_wr_arg;
 std::string WriteReal(SDAI_Real v) { g_wr_calls++; g_wr_arg = v; return std::string("1.5E0"); }   /* contract stub: the REAL token of v */
 #include "realnode_extract.inc"
+/* contract stubs of the enumeration value class (unit enum_cc): token with dots vs bare item name */
+const char *SDAI_Enum::STEPwrite(std::string &s) const { s = ".X."; return s.c_str(); }
+const char *SDAI_Enum::asStr(std::string &s) const { s = "X"; return s.c_str(); }
+#include "enumnode_extract.inc"
 #undef sprintf
 #undef snprintf
 #undef private
@@ -103,4 +108,19 @@ extern "C" void h_RealNode_write()
     SDAI_Real z = S_REAL_NULL; int unset = memcmp(&in_v, &z, sizeof z) == 0;
     if (!unset) __CPROVER_assert(g_wr_calls == 1 && !strcmp(r, "1.5E0") && (g_wr_arg == in_v || in_v != in_v), "C01 a REAL element is written as exactly the REAL token of its own value (zero, negative numbers and infinities are values)");
     else __CPROVER_assert(g_wr_calls == 0 && r[0] == 0, "the unset real sentinel is written as nothing");
+}
+
+/* C01: an ENUMERATION / BOOLEAN / LOGICAL element is written as its Part 21 token - the item between dots -, its asStr is the bare name */
+extern "C" void h_EnumNode_write()
+{
+    IN_ARR(char, in_old, SN6); IN(unsigned, in_olen);
+    __CPROVER_assume(in_olen <= SN6);
+    for (int i = 0; i < SN6; i++) if ((unsigned)i < in_olen) __CPROVER_assume(in_old[i] != 0);
+    EnumNode *n = (EnumNode *)malloc(sizeof(EnumNode)); n->node = (SDAI_Enum *)malloc(sizeof(SDAI_Enum));
+    std::string s; fill(s, in_old, in_olen);
+    const char *r = n->EnumNode::STEPwrite(s, 0);
+    __CPROVER_assert(!strcmp(r, ".X."), "C01 an enumeration element is written as the value's exchange-file token (.ITEM.), not as its bare name");
+    std::string s2; fill(s2, in_old, in_olen);
+    const char *r2 = n->EnumNode::asStr(s2);
+    __CPROVER_assert(!strcmp(r2, "X"), "asStr of an enumeration element is the bare item name");
 }
